@@ -74,6 +74,8 @@ func runC19(c *Ctx) {
 		r.Und("C19.guard", "instance-floor", "", fmt.Sprintf("only %d fields with post-construction writes decided; 8 confirmed by hand (Event.Formatted, FileSink.f/BytesWritten/LastCreated, encrypt Wrapper/HmacSalt/HmacInfo, gated gated/orderedGated/composeFrom/Expiration, cloudevents Signer)", n))
 	}
 
+	c.ruleGlobals("C19.globals")
+
 	// C19.confined
 	scratch := map[string]bool{"encrypt.tMap": true, "encrypt.trackedMaps": true}
 	isScratch := func(t types.Type) bool {
